@@ -747,6 +747,8 @@ func runP7Bad(sc M) {
 	}
 	b := sc["blob"].(M)
 	dg := imgDigests()
+	encAlgLabel = str(sc, "enc")
+	defer func() { encAlgLabel = "" }()
 	der := buildSymBlob(str(b, "ct"), str(b, "content"), symSignersOf(list(b, "signers")), "signer", true, dg)
 	signatureOps(id, der)
 	signatureOps(id, buildSymBlob(str(b, "ct"), str(b, "content"), symSignersOf(list(b, "signers")), "none", false, dg))
